@@ -1172,12 +1172,12 @@ def checks(h):
         run_case(h, r)
 
     # main search: `int - expr` (known finding F-C26-1) is steered around by construction ...
-    h.hyp("map", map_recipe_st(False), body_main, h.scale(260, 6500), 1)
-    h.hyp("compose", compose_recipe_st(False), body_main, h.scale(100, 2500), 2)
-    h.hyp("replace", replace_recipe_st(False), body_main, h.scale(80, 2000), 3)
-    h.hyp("flat", flat_recipe_st(), body, h.scale(40, 800), 4)
-    h.hyp("perm", perm_recipe_st(), body, h.scale(60, 1000), 5)
+    h.hyp("map", map_recipe_st(False), body_main, h.scale(260, 5200), 1)
+    h.hyp("compose", compose_recipe_st(False), body_main, h.scale(100, 2000), 2)
+    h.hyp("replace", replace_recipe_st(False), body_main, h.scale(80, 1600), 3)
+    h.hyp("flat", flat_recipe_st(), body, h.scale(40, 700), 4)
+    h.hyp("perm", perm_recipe_st(), body, h.scale(60, 900), 5)
     h.hyp("semi_affine", semi_recipe_st(), body, h.scale(10, 100), 6)
     # ... and probed with a fixed quota so that the KNOWN-FINDING line stays honest
-    h.hyp("map_with_rsub", map_recipe_st(True), body, h.scale(30, 600), 7)
-    h.hyp("compose_with_rsub", compose_recipe_st(True), body, h.scale(10, 200), 8)
+    h.hyp("map_with_rsub", map_recipe_st(True), body, h.scale(30, 500), 7)
+    h.hyp("compose_with_rsub", compose_recipe_st(True), body, h.scale(10, 160), 8)
